@@ -111,10 +111,10 @@ Proof.
      (exists id cb rest, s_queue s = (id, cb) :: rest /\
         cview s' = (g_done s ++ [mkComp id K_DESTROYED fts [] []], rest, h_next s, g_accepted s))).
   { intros s0 E Hp. apply (cpop_eqv _ _ _ E) in Hp. destruct Hp as [Hp|Hp]; auto. }
-  destruct f as [[cb|full nl cb| | |r|]| | | |]; cbn [step do_op] in H.
+  destruct f as [[sn cb|full nl cb| | |r|]| | | |]; cbn [step do_op] in H.
   - destruct (s_max s <=? len (s_queue s)).
     + inversion H; subst. right; right; left. reflexivity.
-    + apply take_next_cv in H. right; right; right; left. exists cb. rewrite H. reflexivity.
+    + apply take_next_cv in H. right; right; right; left. eexists. rewrite H. reflexivity.
   - destruct (s_discov s && negb (h_destroying s)).
     + apply take_next_cv in H. left. rewrite H. reflexivity.
     + inversion H; subst. left; reflexivity.
